@@ -7,7 +7,7 @@
 From Coq Require Import NArith ZArith List Bool Lia.
 From NV Require Import Common.Outcome Text.Chars Text.LexLit Text.Lexer Text.FormatScan Text.LexSpec
   Text.LexBytesSpec Text.Chars_proofs Text.LexLit_proofs Text.Lexer_proofs Text.LexSpec_proofs Text.FormatScan_proofs
-  Text.LexBytes_proofs Text.LexFloat_proofs.
+  Text.LexBytes_proofs Text.LexFloat_proofs Text.LexUnfold_proofs.
 Import ListNotations.
 Open Scope N_scope.
 
@@ -26,6 +26,18 @@ Theorem C15_lex_iteration_consumes : forall (U : uclass) (c : N) (r : list N),
   end.
 Proof. exact lex_one_shrinks. Qed.
 Print Assumptions C15_lex_iteration_consumes.
+
+(* the fuel is an artefact: lex satisfies the fuel-free equation of the Rust loop (emit the tokens
+   of one iteration, continue on what is left), and any fuel above the input length agrees *)
+Theorem C15_lex_unfold : forall (U : uclass) (c : N) (r : list N),
+  lex U (c :: r) = (x <- lex_one U c r ;; let '(toks, rest) := x in ts <- lex U rest ;; Ok (toks ++ ts)).
+Proof. exact lex_unfold. Qed.
+Print Assumptions C15_lex_unfold.
+
+Theorem C15_lex_fuel_irrelevant : forall (U : uclass) (s : list N) (fuel : nat),
+  (length s < fuel)%nat -> lex_loop U fuel s [] = lex U s.
+Proof. exact lex_fuel_irrelevant. Qed.
+Print Assumptions C15_lex_fuel_irrelevant.
 
 (* no panic (and no error): lexing returns a token list.  The bound is the i32 depth counter
    of #( ... ) comments: inputs shorter than 2^31 characters cannot overflow it. *)
